@@ -8,13 +8,14 @@ use bit_set::BitSet;
 use thiserror::Error;
 
 use std::borrow::Cow;
+#[cfg(not(feature = "verif-hooks"))]
+use std::collections::{HashMap, HashSet};
+use std::sync::{Arc, Weak};
+
 #[cfg(feature = "verif-hooks")]
 use crate::verif_hooks::SMap as HashMap;
 #[cfg(feature = "verif-hooks")]
 use crate::verif_hooks::VecSet as HashSet;
-#[cfg(not(feature = "verif-hooks"))]
-use std::collections::{HashMap, HashSet};
-use std::sync::{Arc, Weak};
 
 pub struct Registration<R>(Arc<HashMap<String, R>>);
 
